@@ -140,6 +140,22 @@ for _p in SUITE_PROPS:
     CHECKS[_p]["note"] += " Suite executions: 15 tests that write a stream by hand or drive a layer below the one that writes the opening frame are excused for the one guard they trip (vlib/suite_handmade.json); life-cycle guards are used in their stage-monotone form there (Strict = FALSE)."
 
 
+ROUND4 = {
+    "C01": " Round 4: store-level writers of every append kind at once with every sidecar line delayed until a later one is in the sidecar (sidecar order, then restart + appends); whole-system histories with request dumps judged by System.tla's numbering guard; Apalache proves the inductive invariant of the numbering protocol (spec/apalache/SeqLock.tla: any log length, three writers, crash anywhere) and refutes the narrowed critical section.",
+    "C02": " Round 4: damaged-store no-op family (thread index lost / garbage / empty x log clean / torn / seq gap; ensure_default and every read add nothing after a restart); concurrent appenders on one log with frames of 10 B .. 48 KB (only whole lines, one per acknowledged append).",
+    "C05": " Round 4: acknowledged means on disk for every writer family: at every log.flushed point of generated whole-system histories the last line of the file is the frame just appended.",
+    "C06": " Round 4: for each frame of a tool run on a thread and each frame of a task the producer is parked inside that frame's append while a subscriber joins (join_hold engine).",
+    "C08": " Round 4: the same compile with a sidecar line glued onto the next (messages+runs / full sidecar, tail and further back), before and after a restart.",
+    "C11": " Round 4: the bash actor also runs under the registry alias `shell`.",
+    "C15": " Round 4: bodies that end without the terminal marker in every state of the line decoder after delivered events.",
+    "C18": " Round 4: a real `rip serve` with a request in flight gets SIGTERM while a second one starts (the lock names the first as long as it lives); waiting-client scripts with a dead authority's meta file beside a live authority's half-written lock.",
+    "C19": " Round 4: the engine starts with the configuration the environment gives (the `rip serve` start-up path); padded environment values; secret headers whose names give nothing away.",
+    "C20": " Round 4: every frame type as real runs wrote it and its well-formed payload mutants folded and rendered in every mode (surface_frames engine).",
+}
+for _p, _t in ROUND4.items():
+    CHECKS[_p]["text"] += _t
+
+
 def main():
     props = [json.loads(l) for l in open(os.path.join(VERIF, "properties.jsonl"))]
     checks = []
